@@ -367,6 +367,10 @@ func checkConn(sc connScenario, r *connResult) []connVerdict {
 			}
 		case errClass == "nil" || strings.HasPrefix(errClass, "text:"):
 			add("C01", "no-phantom-completion", "C01/phantom-completion/"+mode, fmt.Sprintf("call %d completed with %s although no response had been sent for it", k, errClass))
+			if len(cancelIdx) > 0 {
+				// C19: the late response of an abandoned call must not complete another call
+				add("C19", "late-response-harmless", "C19/late-response-completed-another-call/"+mode, fmt.Sprintf("call %d completed with %s although no response had been sent for it, in a scenario where a cancelled call's response arrived late", k, errClass))
+			}
 		}
 		// reply object: own on success, untouched on failure
 		rs := c.replyState()
